@@ -117,6 +117,10 @@ pub struct Actor {
     pub name: String,
     pub kind: ActorKind,
     pub ops: Vec<Op>,
+    /// the actor's OS thread is only created after this other actor's thread has exited and been
+    /// joined (thread-local storage of the exited thread may be handed to the new one)
+    #[serde(default)]
+    pub after_exit_of: Option<usize>,
 }
 
 #[derive(Debug, Clone, PartialEq, Eq, Hash, Serialize, Deserialize)]
@@ -130,7 +134,11 @@ impl Program {
         Program { name: name.into(), actors: Vec::new() }
     }
     pub fn worker(mut self, name: &str, ops: Vec<Op>) -> Self {
-        self.actors.push(Actor { name: name.into(), kind: ActorKind::Worker, ops });
+        self.actors.push(Actor { name: name.into(), kind: ActorKind::Worker, ops, after_exit_of: None });
+        self
+    }
+    pub fn worker_after(mut self, name: &str, after: usize, ops: Vec<Op>) -> Self {
+        self.actors.push(Actor { name: name.into(), kind: ActorKind::Worker, ops, after_exit_of: Some(after) });
         self
     }
     pub fn collector(mut self, cycles: usize, atomic: bool, pop_yields: u32) -> Self {
@@ -138,6 +146,7 @@ impl Program {
             name: "collector".into(),
             kind: ActorKind::Collector { atomic, pop_yields },
             ops: vec![Op::Cycle; cycles],
+            after_exit_of: None,
         });
         self
     }
